@@ -111,7 +111,8 @@ Proof.
   destruct (memN y l) eqn:E.
   - apply memN_in. apply set_of_in. apply memN_in. exact E.
   - destruct (memN y (set_of l)) eqn:E2; [|reflexivity].
-    apply memN_in in E2. apply set_of_in in E2. apply memN_in in E2. congruence.
+    apply (proj1 (memN_in _ _)) in E2. apply (proj1 (set_of_in _ _)) in E2.
+    apply (proj2 (memN_in _ _)) in E2. congruence.
 Qed.
 
 (* ------------------------------------------------------------------ state *)
